@@ -172,7 +172,7 @@ def relay_case(kind):
 
     def peer(sock):
         try:
-            if kind == 'starttls':
+            if kind.startswith('starttls'):
                 sock.sendall(b'220 ready\r\n')
                 buf = b''
                 while b'STARTTLS' not in buf.upper():
@@ -199,8 +199,10 @@ def relay_case(kind):
         peer.sent = b''
         gevent.spawn(peer, b)
         return a
-    relay = StaticSmtpRelay('198.51.100.7', 25, socket_creator=creator, ehlo_as='relay.example', context=cli_ctx(),
-                            tls_immediately=(kind == 'immediate'), tls_required=(kind == 'starttls'),
+    # 'starttls-default': no TLS context configured, the library builds its own
+    relay = StaticSmtpRelay('198.51.100.7', 25, socket_creator=creator, ehlo_as='relay.example',
+                            context=None if kind.endswith('-default') else cli_ctx(),
+                            tls_immediately=(kind == 'immediate'), tls_required=kind.startswith('starttls'),
                             connect_timeout=5, command_timeout=CMD_T, data_timeout=DATA_T)
     env = Envelope('sender1@a.example', ['rcpt1-0@b.example'])
     env.parse(b'Subject: t\r\n\r\nbody\r\n')
@@ -219,14 +221,31 @@ def relay_case(kind):
             res['r'] = {'kind': 'raise', 'cls': 'other', 'per': [], 'exc': type(e).__name__}
         res['now'] = int(CLOCK.now)
     g = gevent.spawn(run)
-    pump(0.1)
-    for _ in range(6):
-        if g.ready() or CLOCK.next_deadline() is None:
-            break
-        CLOCK.fire_next()
+    # a handshake that does not co-operate with gevent blocks this whole process: a real-time alarm gets us out and
+    # the attempt counts as never ending
+    import signal
+
+    class Blocked(BaseException):
+        pass
+
+    def on_alarm(signum, frame):
+        raise Blocked()
+    old_handler = signal.signal(signal.SIGALRM, on_alarm)
+    signal.alarm(20)
+    try:
+        pump(0.1)
+        for _ in range(6):
+            if g.ready() or CLOCK.next_deadline() is None:
+                break
+            CLOCK.fire_next()
+            pump()
+            log(t='advance')
         pump()
+    except Blocked:
         log(t='advance')
-    pump()
+    finally:
+        signal.alarm(0)
+        signal.signal(signal.SIGALRM, old_handler)
     if g.ready():
         r = dict(res['r'])
         r.update({'t': 'ret', 'req': 1, 'code': 0, 'marker': 0, 'now': res['now']})
@@ -252,7 +271,7 @@ def main():
     f = open(out, 'w')
     stats = {'executions': 0}
     cases = ([('s', k) for k in ('starttls-silent', 'starttls-partial', 'immediate-silent')] if mode == 'server'
-             else [('r', k) for k in ('immediate', 'starttls')])
+             else [('r', k) for k in ('immediate', 'starttls', 'starttls-default')])
     n = 0
     for i, (which, k) in enumerate(cases):
         if i % nshards != shard:
